@@ -554,13 +554,14 @@ func (r *runner) entriesFor(bi *baseInfo, eds []edit, level string) []entry {
 	case level == "pair" && th:
 		out = append(out, eText, eChunks, ePageCount)
 	// quick tier. PDF: Chunks() is a strict prefix of ToMarkdown()'s execution; other formats: every
-	// entry point re-parses the container, Text and Chunks are the two disjoint paths behind it.
+	// entry point re-parses the whole container first (the dominant cost and the code under byte-level
+	// faults), so byte substitutions run Text only; numeric and delimiter faults run the full list.
 	case b.kind == "pdf" && level == "reduced":
 		out = append(out, eText, eMarkdown, ePageCount)
 	case b.kind == "pdf" && level == "pair":
 		out = append(out, eText, ePageCount)
 	case level == "reduced":
-		out = append(out, eText, eChunks)
+		out = append(out, eText)
 	case level == "pair":
 		out = append(out, eText)
 	}
